@@ -490,6 +490,14 @@ func (o *operation) validate(transcoder *Transcoder) error {
 	return nil
 }
 
+// maxBufferBytes is the configured limit for buffering a single message.
+func (o *operation) maxBufferBytes() int64 {
+	if o.methodConf == nil {
+		return DefaultMaxMessageBufferBytes
+	}
+	return int64(o.methodConf.maxMsgBufferBytes)
+}
+
 func (o *operation) queryValues() url.Values {
 	if o.queryVars == nil && o.request.URL.RawQuery != "" {
 		o.queryVars = o.request.URL.Query()
@@ -1586,7 +1594,7 @@ func (w *envelopingWriter) handleTrailer() error {
 	if w.trailerIsCompressed && data.Len() > 0 {
 		uncompressed := w.rw.op.bufferPool.Get()
 		defer w.rw.op.bufferPool.Put(uncompressed)
-		if err := w.rw.op.server.respCompression.decompress(uncompressed, data); err != nil {
+		if err := w.rw.op.server.respCompression.decompressUpTo(uncompressed, data, int64(w.rw.op.methodConf.maxMsgBufferBytes)); err != nil {
 			return err
 		}
 		data = uncompressed
@@ -1715,7 +1723,7 @@ func (w *transformingWriter) flushMessage() error {
 		if w.latestEnvelope.compressed && w.buffer.Len() > 0 {
 			data = w.rw.op.bufferPool.Get()
 			defer w.rw.op.bufferPool.Put(data)
-			if err := w.rw.op.server.respCompression.decompress(data, w.buffer); err != nil {
+			if err := w.rw.op.server.respCompression.decompressUpTo(data, w.buffer, int64(w.rw.op.methodConf.maxMsgBufferBytes)); err != nil {
 				return err
 			}
 		}
@@ -1803,7 +1811,7 @@ func (e *errorWriter) Close() error {
 	if compressPool := e.rw.op.server.respCompression; compressPool != nil && body.Len() > 0 {
 		uncompressed := bufferPool.Get()
 		defer bufferPool.Put(uncompressed)
-		if err := compressPool.decompress(uncompressed, body); err != nil {
+		if err := compressPool.decompressUpTo(uncompressed, body, int64(e.rw.op.methodConf.maxMsgBufferBytes)); err != nil {
 			// can't really just return an error; we have to encode the
 			// error into the RPC response, so we populate respMeta.end
 			if e.respMeta.end.httpCode == 0 || e.respMeta.end.httpCode == http.StatusOK {
@@ -2093,7 +2101,7 @@ func (m *message) decompress(op *operation) error {
 		return nil
 	}
 	tmp := op.bufferPool.Get()
-	if err := pool.decompress(tmp, m.buf); err != nil {
+	if err := pool.decompressUpTo(tmp, m.buf, op.maxBufferBytes()); err != nil {
 		op.bufferPool.Put(tmp)
 		return err
 	}
